@@ -125,7 +125,8 @@ func (g *synGen) expr(depth int) bn.Expr {
 					dup = true
 				}
 			}
-			if dup {
+			// one literal in four may repeat a property name (every initialiser stays in the tree, in source order)
+			if dup && g.pick("allowDup", 4) != 1 {
 				continue
 			}
 			o.Keys = append(o.Keys, k)
@@ -330,5 +331,5 @@ func (g *synGen) program(depth, max int) []bn.Stmt {
 // lines ignored, object keys sorted, a missing for-condition equal to `true`.
 func normDump(p []bn.Stmt, stripGroups bool) string {
 	// a missing for-condition is documented to mean true
-	return bn.DumpProgram(p, bn.DumpOpt{StripGroups: stripGroups, SortKeys: true, NilCondTrue: true})
+	return bn.DumpProgram(p, bn.DumpOpt{StripGroups: stripGroups, SortKeys: false, NilCondTrue: true})
 }
